@@ -30,10 +30,10 @@ vj::Value run_case(const vj::Value& c)
   if(c["op"].as_str() != "adjexpr") return vh::bad("unknown op");
   const vj::Value& ops = c["ops"];
   if(ops.size() == 1)
-    return with_operand(ops[0], true, [&](const auto& a) { return run_one(c, a); });
+    return with_operand<true>(ops[0], [&](const auto& a) { return run_one(c, a); });
   if(ops.size() == 2)
-    return with_operand(ops[0], true, [&](const auto& a) {
-      return with_operand(ops[1], true, [&](const auto& b) { return run_two(c, a, b); }); });
+    return with_operand<true>(ops[0], [&](const auto& a) {
+      return with_operand<true>(ops[1], [&](const auto& b) { return run_two(c, a, b); }); });
   return vh::bad("chains of three operands are replayed by c19_adj3");
 }
 
